@@ -331,6 +331,9 @@ def run_shard(cfg):
                 conn = C.ClientServerConnection(("10.0.0.1", 1))
                 conn.setServerPublicKey(root.getPublicKey())
                 return conn._recvServerHello(b)
+        elif via == "load-persistant":
+            def call():
+                return S.Serializable.load_persistant(b)
         else:
             def call():
                 return Request(("1.2.3.4", 5), "POST", "/m", {}, "", {}, reads.cls(b)).message()
@@ -368,7 +371,7 @@ def run_shard(cfg):
         del exc
         if dt > 5.0:
             c.inc("watchdog_inconclusive")
-        if via == "loadb" or via == "request-message":
+        if via in ("loadb", "request-message", "load-persistant"):
             bound = len(b) // 2 + 1
             if meter.n > bound:
                 viol("iterates-beyond-input", "%s input of %d bytes (%s): %d decoder activations, bound %d" % (label, len(b), via, meter.n, bound),
@@ -399,6 +402,13 @@ def run_shard(cfg):
     tracemalloc.start()
     try:
         # positive control: valid encodings decode
+        baseline_types = {}
+        for kind, b in valid:
+            try:
+                v0 = S.Serializable.loadb(b, server_public_key=root.getPublicKey()) if kind == "server-hello" else S.Serializable.loadb(b)
+                baseline_types[b] = (type(v0), G.canon(v0) if kind == "value" else None)
+            except Exception:
+                pass
         for kind, b in valid:
             if kind == "value":
                 try:
@@ -408,6 +418,22 @@ def run_shard(cfg):
                     c.inc("control_valid_failed")
         # structured attacks (every shard runs them all: they are few)
         attacks = length_attacks(r) + nesting_attacks(r)
+        # many DISTINCT instances of a registered class as members of one set / keys of one map (well-formed input whose cost
+        # depends on how the library hashes and compares its own objects)
+        if classes:
+            Small = type("C14Small%dx%d" % (cfg["seed"], cfg["shard"]), (S.Serializable,), {"__annotations__": {"n": int}, "n": 0})
+            for n_obj in (500, 3000):
+                objs = []
+                for k in range(n_obj):
+                    o = Small()
+                    o.n = k
+                    objs.append(o)
+                st = BytesIO()
+                S.serialize_value(st, set(objs))
+                attacks.append(("many-objects:set-of-%d" % n_obj, st.getvalue()))
+                st = BytesIO()
+                S.serialize_value(st, {o: None for o in objs})
+                attacks.append(("many-objects:map-keys-%d" % n_obj, st.getvalue()))
         for label, b in attacks:
             judge(label, b)
         # the real handshake decoders and Request.message on mutated handshake messages
@@ -463,14 +489,68 @@ def run_shard(cfg):
                 b = r.randbytes(r.randint(0, 300))
             judge("handler:" + via, b, via=via)
             c.inc("via_" + via)
-        # the decoder must not be disturbed by the history of refused inputs: valid encodings still decode
+        # ---- the persisted-stream entry point: the stream brings its own table type id -> class NAME.  A hostile table maps the ids
+        #      of the handshake messages and of the corpus classes to other registered names, unknown names, huge ids; the value
+        #      behind it is valid, truncated or damaged.  Bounds as everywhere; what such a stream says holds for that stream only
+        # (classes whose type ids NO decode of this process has seen yet: only ever encoded until the final control)
+        late_classes, _e = G.make_classes(r, "c14late%dx%d" % (cfg["seed"], cfg["shard"]), n_classes=3, n_enums=0)
+        late_gen = G.ValueGen(r, (), ())
+        late = []
+        for LC in late_classes:
+            o = LC._make(late_gen, 4)
+            try:
+                late.append((o.dumpb(), LC, G.canon(o)))
+            except Exception:
+                pass
+        names = sorted(S.SerializableType.names)
+        ids = sorted(S.SerializableType.registry)
+        for k in range(cfg["n"] // 8):
+            table = {}
+            for _ in range(r.randint(0, 6)):
+                table[r.choice(ids + [40000, 0, 65535, 1 << 20])] = r.choice(names + ["NoSuchClass", ""])
+            late_body = None
+            if late and r.random() < 0.3:
+                late_body, LC, _c = r.choice(late)
+                table[LC.type_id] = r.choice(names)               # the stream claims the id of a class it was not made with
+            st = BytesIO()
+            S.serialize_value(st, len(table) if r.random() < 0.8 else r.choice([0, 1, 16384, 16385, 2 ** 31 - 1]))
+            for tid, nm in table.items():
+                S.serialize_value(st, tid)
+                S.serialize_value(st, nm)
+            body = late_body if late_body is not None else r.choice(valid)[1]
+            x = r.random()
+            if late_body is not None:
+                pass
+            elif x < 0.3:
+                body = body[:r.randrange(len(body) + 1)]
+            elif x < 0.5 and body:
+                bb = bytearray(body)
+                bb[r.randrange(len(bb))] ^= 1 << r.randrange(8)
+                body = bytes(bb)
+            judge("persisted-stream", st.getvalue() + body, via="load-persistant")
+            c.inc("via_load-persistant")
+        for enc, LC, want_canon in late:
+            try:
+                v3 = S.Serializable.loadb(enc)
+                c.inc("post_control_late_classes")
+                if type(v3) is not LC or G.canon(v3) != want_canon:
+                    viol("decoder-disturbed-by-hostile-history", "after hostile persisted streams that claimed its type id, the plain encoding of a %s decodes to a %s" % (
+                        LC.__name__, type(v3).__name__), {"input": enc[:64].hex()})
+            except Exception as e:
+                viol("decoder-disturbed-by-hostile-history", "after hostile persisted streams that claimed its type id, the plain encoding of a %s is refused: %r" % (LC.__name__, e), {"input": enc[:64].hex()})
+        # the decoder must not be disturbed by the history of hostile inputs: valid encodings decode to what they decoded to before
         for kind, b in valid:
-            if kind == "value":
-                try:
-                    S.Serializable.loadb(b)
-                    c.inc("post_control_valid_decoded")
-                except Exception as e:
-                    viol("decoder-disturbed-by-hostile-history", "after %d hostile inputs a valid encoding is refused: %r" % (c.get("inputs", 0), e), {"input": b[:64].hex()})
+            try:
+                v2 = S.Serializable.loadb(b, server_public_key=root.getPublicKey()) if kind == "server-hello" else S.Serializable.loadb(b)
+                c.inc("post_control_valid_decoded")
+                want_t = baseline_types.get(b)
+                if want_t is not None and (type(v2) is not want_t[0] or (kind == "value" and G.canon(v2) != want_t[1])):
+                    viol("decoder-disturbed-by-hostile-history", "after %d hostile inputs a valid encoding (%s) decodes to a %s instead of a %s / to another value" % (
+                        c.get("inputs", 0), kind, type(v2).__name__, want_t[0].__name__), {"input": b[:64].hex()})
+                else:
+                    c.inc("post_control_same_value")
+            except Exception as e:
+                viol("decoder-disturbed-by-hostile-history", "after %d hostile inputs a valid encoding is refused: %r" % (c.get("inputs", 0), e), {"input": b[:64].hex()})
         if len(samples) < 3:
             samples.append({"attack_examples": [(l, b[:24].hex()) for l, b in attacks[::37]][:8],
                             "worst_alloc_bytes_per_input_byte": round(worst["ratio"], 1), "worst_activation_ratio": round(worst["act"], 3),
@@ -490,8 +570,8 @@ def finish(tier, seed, results):
     m = merge(results)
     inconclusive = []
     need(m["counters"], ["inputs", "returned", "raised_ordinary_exception", "control_valid_decoded", "inputs_declared-length", "inputs_nested-declared-length", "inputs_deep-nesting-seq",
-                         "inputs_truncation", "inputs_bitflip", "inputs_typeid", "inputs_random", "via_client-hello-handler", "via_challenge-handler",
-                         "via_server-hello-handler", "via_request-message", "decoded_values_inspected", "decoder_line_steps", "post_control_valid_decoded", "inputs_with_read_meter"], inconclusive)
+                         "inputs_truncation", "inputs_many-objects", "inputs_bitflip", "inputs_typeid", "inputs_random", "via_client-hello-handler", "via_challenge-handler",
+                         "via_server-hello-handler", "via_request-message", "decoded_values_inspected", "decoder_line_steps", "post_control_valid_decoded", "post_control_same_value", "post_control_late_classes", "via_load-persistant", "inputs_with_read_meter"], inconclusive)
     if m["counters"].get("watchdog_inconclusive"):
         inconclusive.append("%d inputs exceeded the 5 s wall-clock watchdog" % m["counters"]["watchdog_inconclusive"])
     if m["counters"].get("control_valid_failed"):
